@@ -277,13 +277,16 @@ func (env *verifEnv) c09HalfLoad(t *testing.T) bool {
 
 // ---------------------------------------------------------------- injection
 
+// tls / chain: r.TLS != nil / len(r.TLS.VerifiedChains) >= 1 (the two tests the handler makes); conn names the
+// whole connection record (c09conn.go), "" = the plain shape the two booleans describe
 type c09Op struct {
 	tls, chain, field bool
 	pass              string
+	conn              string
 }
 
 func (o c09Op) String() string {
-	return fmt.Sprintf("{tls=%v chain=%v field=%v pass=%q}", o.tls, o.chain, o.field, o.pass)
+	return fmt.Sprintf("{conn=%s tls=%v chain=%v field=%v pass=%q}", o.shape().name, o.tls, o.chain, o.field, o.pass)
 }
 
 func (o c09Op) coq() string {
@@ -291,7 +294,7 @@ func (o c09Op) coq() string {
 	if o.field {
 		f = "Some " + coqPacked([]byte(o.pass))
 	}
-	return fmt.Sprintf("{| i_tls := %s; i_chain := %s; i_field := %s |}", coqBool(o.tls), coqBool(o.chain), f)
+	return fmt.Sprintf("{| i_conn := %s; i_field := %s |}", o.connCoq(), f)
 }
 
 type c09Obs struct {
@@ -322,13 +325,8 @@ func (env *verifEnv) c09Inject(o c09Op, readyTotal *int) c09Obs {
 	}
 	req := httptest.NewRequest("POST", "https://keymaster.example:6920"+secretInjectorPath, strings.NewReader(form.Encode()))
 	req.Header.Set("Content-Type", "application/x-www-form-urlencoded")
-	req.TLS = nil // httptest.NewRequest fills it in for https targets
-	if o.tls {
-		req.TLS = &tls.ConnectionState{}
-		if o.chain {
-			req.TLS.VerifiedChains = [][]*x509.Certificate{{env.adminClient, env.adminCA}}
-		}
-	}
+	// httptest.NewRequest fills r.TLS in for https targets: replace it by the connection record of the op
+	req.TLS = o.shape().build(env, env.c09CertSet(env.t))
 	rr := httptest.NewRecorder()
 	done := make(chan bool, 1)
 	go func() {
@@ -432,12 +430,12 @@ func c09RealAdmin(t *testing.T, res *verifResult, v c09Variant) ([]c09Op, []c09O
 		shape string
 	}
 	steps := []step{
-		{"TLS, no client certificate, right passphrase", tlsSrv.URL, nil, verifPassphrase, &c09Op{true, false, true, verifPassphrase}, "no-client-certificate"},
+		{"TLS, no client certificate, right passphrase", tlsSrv.URL, nil, verifPassphrase, &c09Op{true, false, true, verifPassphrase, ""}, "no-client-certificate"},
 		{"TLS, client certificate of an unknown CA, right passphrase", tlsSrv.URL, &foreignPair, verifPassphrase, nil, "foreign-client-certificate"},
-		{"plain HTTP, right passphrase", plainSrv.URL, nil, verifPassphrase, &c09Op{false, false, true, verifPassphrase}, "plain-http"},
-		{"TLS, admin client certificate, wrong passphrase", tlsSrv.URL, &adminPair, "wrong passphrase", &c09Op{true, true, true, "wrong passphrase"}, "admin-certificate-wrong-passphrase"},
-		{"TLS, admin client certificate, right passphrase", tlsSrv.URL, &adminPair, verifPassphrase, &c09Op{true, true, true, verifPassphrase}, "admin-certificate-right-passphrase"},
-		{"TLS, admin client certificate, right passphrase again", tlsSrv.URL, &adminPair, verifPassphrase, &c09Op{true, true, true, verifPassphrase}, "admin-certificate-right-passphrase"},
+		{"plain HTTP, right passphrase", plainSrv.URL, nil, verifPassphrase, &c09Op{false, false, true, verifPassphrase, ""}, "plain-http"},
+		{"TLS, admin client certificate, wrong passphrase", tlsSrv.URL, &adminPair, "wrong passphrase", &c09Op{true, true, true, "wrong passphrase", ""}, "admin-certificate-wrong-passphrase"},
+		{"TLS, admin client certificate, right passphrase", tlsSrv.URL, &adminPair, verifPassphrase, &c09Op{true, true, true, verifPassphrase, ""}, "admin-certificate-right-passphrase"},
+		{"TLS, admin client certificate, right passphrase again", tlsSrv.URL, &adminPair, verifPassphrase, &c09Op{true, true, true, verifPassphrase, ""}, "admin-certificate-right-passphrase"},
 	}
 	client := func(cert *tls.Certificate) *http.Client {
 		tc := &tls.Config{InsecureSkipVerify: true}
@@ -519,18 +517,33 @@ func c09RealAdmin(t *testing.T, res *verifResult, v c09Variant) ([]c09Op, []c09O
 func c09Alphabet() []c09Op {
 	p := verifPassphrase
 	return []c09Op{
-		{true, true, true, p},
-		{true, true, true, "wrong passphrase"},
-		{true, true, true, ""},
-		{true, true, false, ""},
-		{true, false, true, p},
-		{false, false, true, p},
-		{true, false, true, "wrong passphrase"},
-		{true, true, true, p + " "},
-		{true, true, true, p[:len(p)-1]},
-		{true, true, true, strings.ToUpper(p)},
-		{true, true, true, c09OtherPass},
-		{true, true, true, p + "\x00"},
+		{true, true, true, p, ""},
+		{true, true, true, "wrong passphrase", ""},
+		{true, true, true, "", ""},
+		{true, true, false, "", ""},
+		{true, false, true, p, ""},
+		{false, false, true, p, ""},
+		{true, false, true, "wrong passphrase", ""},
+		{true, true, true, p + " ", ""},
+		{true, true, true, p[:len(p)-1], ""},
+		{true, true, true, strings.ToUpper(p), ""},
+		{true, true, true, c09OtherPass, ""},
+		{true, true, true, p + "\x00", ""},
+	}
+}
+
+// further letters for the random sequences — the connection record: presented is not verified (c09conn.go)
+func c09AlphabetConn() []c09Op {
+	p := verifPassphrase
+	return []c09Op{
+		c09ConnOp("presented-selfsigned", true, p),
+		c09ConnOp("presented-foreign", true, p),
+		c09ConnOp("presented-admin-unverified", true, p),
+		c09ConnOp("presented-expired", true, "wrong passphrase"),
+		c09ConnOp("verified-user", true, p),
+		c09ConnOp("inconsistent-verified-admin-presented-selfsigned", true, p),
+		c09ConnOp("inconsistent-empty-chain-presented-selfsigned", true, p),
+		c09ConnOp("inconsistent-chain-without-presented", true, "wrong passphrase"),
 	}
 }
 
@@ -962,7 +975,7 @@ func c09CoqProg(as []c09Artefact) string {
 }
 
 func TestVerif_C09(t *testing.T) {
-	res := newVerifResult("(a) injection sequences: every sequence of length <=2 over 12 injection shapes (right / wrong / empty / near-miss passphrase x with/without TLS and verified chain x field present) plus seeded random sequences of length 3..7, on 16 key-file configurations (main file good / unparsable / wrong key type x Ed25519 file absent / good / under another passphrase / unparsable / wrong key type x keymaster_public_keys_filename listing own main key / own Ed25519 key / foreign keys / duplicates), each on a fresh sealed state from loadVerifyConfigFile, the whole key state fingerprinted before and after every injection, compared step by step with Model.Seal.inject_run; (b) every route of the regenerated mux x {GET,POST} x 5 credentials plus targeted signing requests, on a sealed state, on a half-loaded state (Ed25519 signer present, main signer absent, own main key listed as trusted peer key) and on the unsealed twin: non-trivial = the twin emits a signed artefact for that request; (c) artefacts of the twin verified against /public/x509ca, /public/sshca and the JWKS; (d) the two admin handlers behind real TLS / plain HTTP listeners configured like main()'s admin server")
+	res := newVerifResult("(a) injection sequences: every sequence of length <=2 over 12 injection shapes (right / wrong / empty / near-miss passphrase x with/without TLS and verified chain x field present) plus seeded random sequences of length 3..7, on 16 key-file configurations (main file good / unparsable / wrong key type x Ed25519 file absent / good / under another passphrase / unparsable / wrong key type x keymaster_public_keys_filename listing own main key / own Ed25519 key / foreign keys / duplicates), each on a fresh sealed state from loadVerifyConfigFile, the whole key state fingerprinted before and after every injection, compared step by step with Model.Seal.inject_run; (b) every route of the regenerated mux x {GET,POST} x 5 credentials plus targeted signing requests, on a sealed state, on a half-loaded state (Ed25519 signer present, main signer absent, own main key listed as trusted peer key) and on the unsealed twin: non-trivial = the twin emits a signed artefact for that request; (c) artefacts of the twin verified against /public/x509ca, /public/sshca and the JWKS; (d) the two admin handlers behind real TLS / plain HTTP listeners configured like main()'s admin server, incl. two injections over one resumed TLS session; (a') the connection record of the injection (http.Request.TLS: nil / empty / certificates only PRESENTED: self-signed, foreign CA, the admin certificate unverified, expired / verified admin chain / verified chain of another CA / PeerCertificates and VerifiedChains of different certificates / an empty first chain) x passphrase right / wrong / empty / field absent, non-trivial = the record carries certificates; (g) the injection handler behind crypto/tls listeners of the five ClientAuth policies x certificate forced onto the wire x passphrase")
 	rng := verifRand()
 	var sb, idx strings.Builder
 	sb.WriteString(coqCaseHeader)
@@ -981,6 +994,7 @@ func TestVerif_C09(t *testing.T) {
 
 	// ------------------------------------------------------------ (a) injection sequences
 	alpha := c09Alphabet()
+	alphaAll := append(c09Alphabet(), c09AlphabetConn()...)
 	type seqCase struct {
 		variant int
 		ops     []c09Op
@@ -1016,6 +1030,13 @@ func TestVerif_C09(t *testing.T) {
 				break
 			}
 			nowSealed := ob.sealed
+			if connState := o.shape().build(env, env.c09CertSet(t)); !c09HasVerifiedChain(connState) && (wasSealed && !nowSealed || total != readyBefore) {
+				// the property's own predicate: the signer became ready after a request whose connection record had no verified chain
+				res.hit(verifHit{Key: "C09:unverified-cert:" + o.shape().name, Oracle: "the signer becomes ready only after a request whose connection state carries a VERIFIED client chain (tls.ConnectionState.VerifiedChains); a certificate that was merely presented (PeerCertificates) opens nothing",
+					What: fmt.Sprintf("injection %s on key files {%s}: connection record %s (PeerCertificates %s, VerifiedChains %s), status %d, signer set afterwards=%v, /readyz %d, ready messages %d -> %d",
+						o, v.shape(), o.shape().name, o.shape().peer, o.shape().chains, ob.code, !nowSealed, ob.readyz, readyBefore, total),
+					Case: cs, Observed: map[string]interface{}{"status": ob.code, "signer_set": !nowSealed, "readyz": ob.readyz, "ready_messages": total}})
+			}
 			if wasSealed && !nowSealed {
 				transitions++
 				if !(o.tls && o.chain && o.field && o.pass == verifPassphrase) {
@@ -1053,6 +1074,13 @@ func TestVerif_C09(t *testing.T) {
 			}
 		}
 	}
+	// the connection record as a dimension: every shape of http.Request.TLS x passphrase {right, wrong, empty}
+	for _, ops := range c09ConnSequences() {
+		runSeq(0, ops)
+		if verifThorough() || ops[0].pass == verifPassphrase {
+			runSeq(1, ops)
+		}
+	}
 	nRandom := 8
 	if verifThorough() {
 		nRandom = 60
@@ -1070,7 +1098,7 @@ func TestVerif_C09(t *testing.T) {
 				if rng.Intn(3) == 0 {
 					ops = append(ops, alpha[0])
 				} else {
-					ops = append(ops, alpha[rng.Intn(len(alpha))])
+					ops = append(ops, alphaAll[rng.Intn(len(alphaAll))])
 				}
 			}
 			runSeq(vi, ops)
@@ -1080,6 +1108,10 @@ func TestVerif_C09(t *testing.T) {
 	for _, vi := range []int{1, 3} {
 		ops, obs := c09RealAdmin(t, res, c09Variants[vi])
 		seqs = append(seqs, seqCase{variant: vi, ops: ops, obs: obs})
+	}
+	// ... and the operator's requests over one resumed TLS session (c09conn.go)
+	if ops, obs := c09Resumed(t, res, c09Variants[1]); ops != nil {
+		seqs = append(seqs, seqCase{variant: 1, ops: ops, obs: obs})
 	}
 	sb.WriteString("Definition seq_cases : list (nat * list inj * list (N * N * (bool * bool * nat * nat * nat * bool))) := [\n")
 	for i, sc := range seqs {
@@ -1099,6 +1131,10 @@ func TestVerif_C09(t *testing.T) {
 	}
 	sb.WriteString("].\n")
 	sb.WriteString("Definition c09_seq_mismatches := Eval vm_compute in mismatches (fun c : nat * list inj * list (N * N * (bool * bool * nat * nat * nat * bool)) =>\n  let '(v, ops, obs) := c in negb (inject_obs_eqb (inject_run (cfg_of v) (sealed_init (cfg_of v)) ops) obs)) seq_cases.\nPrint c09_seq_mismatches.\n")
+	// the property's predicate on the observation (c09_only_right_pass; sound on the model by c09_observation_predicate_sound):
+	// a step after which the real server is unsealed although its connection record has no verified chain / its field is not the passphrase
+	sb.WriteString("Definition c09_seq_violating_chain := Eval vm_compute in mismatches (fun c : nat * list inj * list (N * N * (bool * bool * nat * nat * nat * bool)) =>\n  let '(v, ops, obs) := c in seq_violation (cfg_of v) true ops obs =? 1) seq_cases.\nPrint c09_seq_violating_chain.\n")
+	sb.WriteString("Definition c09_seq_violating_pass := Eval vm_compute in mismatches (fun c : nat * list inj * list (N * N * (bool * bool * nat * nat * nat * bool)) =>\n  let '(v, ops, obs) := c in seq_violation (cfg_of v) true ops obs =? 2) seq_cases.\nPrint c09_seq_violating_pass.\n")
 
 	// ------------------------------------------------------------ (b) every route, sealed / half loaded / unsealed twin
 	keys := verifNewKeys()
@@ -1221,7 +1257,11 @@ func TestVerif_C09(t *testing.T) {
 	autoCoq, autoIdx := c09AutoUnseal(t, res)
 	sb.WriteString(autoCoq)
 	idx.WriteString(autoIdx)
-	sb.WriteString("Definition c09_ncases := Eval vm_compute in (length seq_cases + length route_cases + length pub_cases + length auto_cases)%nat.\nPrint c09_ncases.\n")
+	// ------------------------------------------------------------ (g) the handler behind crypto/tls listeners of every ClientAuth policy (c09conn.go)
+	overCoq, overIdx := c09Listeners(t, res)
+	sb.WriteString(overCoq)
+	idx.WriteString(overIdx)
+	sb.WriteString("Definition c09_ncases := Eval vm_compute in (length seq_cases + length route_cases + length pub_cases + length auto_cases + length over_cases)%nat.\nPrint c09_ncases.\n")
 	if err := ioutil.WriteFile(filepath.Join(verifOut(), "CasesC09.v"), []byte(sb.String()), 0644); err != nil {
 		t.Fatal(err)
 	}
@@ -1246,7 +1286,7 @@ func TestVerif_C09(t *testing.T) {
 
 func TestVerif_C09Race(t *testing.T) {
 	res := newVerifResult("rounds of 8 concurrent injections (right / wrong passphrase, with / without chain) racing 32 requests (/readyz, /public/x509ca, /public/sshca, JWKS, certgen, login) on a fresh sealed state under the race detector: exactly one injection answers 200, one ready message, every 200 answer of a request shows complete key material")
-	rounds := 6
+	rounds := 10
 	if verifThorough() {
 		rounds = 200
 	}
@@ -1272,7 +1312,7 @@ func TestVerif_C09Race(t *testing.T) {
 		injCodes := make([]int, 8)
 		injRight := make([]bool, 8)
 		for i := 0; i < 8; i++ {
-			op := c09Op{true, true, true, verifPassphrase}
+			op := c09Op{true, true, true, verifPassphrase, ""}
 			switch i % 4 {
 			case 1:
 				op.pass = "wrong"
@@ -1285,16 +1325,19 @@ func TestVerif_C09Race(t *testing.T) {
 			wg.Add(1)
 			go func(i int, op c09Op) {
 				defer wg.Done()
-				<-start
+				// the request is built before the barrier: after it the injections do nothing but enter the handler,
+				// so that several of them are between its first test and unsealCA's critical section at the same time
 				form := url.Values{}
 				form.Set("ssh_ca_password", op.pass)
 				req := httptest.NewRequest("POST", "https://keymaster.example:6920"+secretInjectorPath, strings.NewReader(form.Encode()))
 				req.Header.Set("Content-Type", "application/x-www-form-urlencoded")
-				req.TLS = &tls.ConnectionState{}
+				// every injection PRESENTS the admin certificate; the one "without chain" presents it unverified
+				req.TLS = &tls.ConnectionState{PeerCertificates: []*x509.Certificate{env.adminClient}}
 				if op.chain {
 					req.TLS.VerifiedChains = [][]*x509.Certificate{{env.adminClient, env.adminCA}}
 				}
 				rr := httptest.NewRecorder()
+				<-start
 				env.state.secretInjectorHandler(rr, req)
 				injCodes[i] = rr.Code
 			}(i, op)
